@@ -325,7 +325,7 @@ Section C05_wire.
        vr_get_by_request (ve_var e) r = Ok (Miss position headers) ->
        vary_missing hstate compute cache_on ims_on negotiate rules_of dbg c hs now r ok k position headers = Ok (st', rp, lg, calls) ->
        rp = finishV negotiate r (fst (fst (compute hs r ok))) (own_tuple rules_of r) ims_on true /\
-       (if variant_admitted cache_on k r (fst (fst (compute hs r ok)))
+       (if variant_accepted cache_on k r (fst (fst (compute hs r ok)))
         then holds_copy rules_of (fst st') r (fst (fst (compute hs r ok))) (ve_created e)
         else fst st' = c)).
   Proof.
